@@ -5,7 +5,12 @@ classified sweep of every get_servers_for_psi call site, the upload filter of
 the mutable publisher, both upload_permitted implementations and the wiring of
 the grid-manager verifier into the server objects, and that the verifier's verdict is
 computed from each certificate's own fields, and that the factory hands out that certificate-checking predicate
-whenever grid-manager keys are configured (DESIGN.md section 5, C32)."""
+whenever grid-manager keys are configured (DESIGN.md section 5, C32).
+C32.8-C32.10 decide which value a server is permuted by: the element of
+_parse_announcement's result that get_permutation_seed() returns (C32.9) is
+the decoded announced permutation-seed-base32 on every path that did not
+establish its absence (C32.8), and otherwise one of the two frozen fallbacks
+(C32.10)."""
 from sa.h import *
 from sa.rules.C33 import _checker as _c33_checker
 
@@ -34,15 +39,28 @@ EXPLANATION = (
     "always-True `lambda: True`, None - which upload_permitted reads as `no verifier` -, any other value, or falling "
     "off its end) only on paths that established that its `keys` parameter is empty (`not keys`, `len(keys) == 0`, ... "
     "through hoisted temporaries and truthiness-preserving copies), and `keys` is not re-bound to anything else: with "
-    "keys configured the verdict is always the per-certificate one of (6). "
+    "keys configured the verdict is always the per-certificate one of (6); "
+    "(8) the seed of the sort key: path exploration of storage_client._parse_announcement with the kind of value each "
+    "local holds (announced text = ann['permutation-seed-base32'] / ann.get(..) / copies / .encode(); decoded announced "
+    "seed = base32.a2b(announced text); key = base32.a2b(server_id[3:]); hash = hashlib.sha256(server_id).digest()) - "
+    "the seed element of the returned tuple is anything but the decoded announced seed only on paths that established "
+    "that the announcement lacks the key (`K not in ann`, the lookup or a local holding it tested None / false, the "
+    "KeyError handler of ann[K]); so a v0-<pubkey> id, the tubid or a hash never takes precedence over an announced seed; "
+    "(9) every get_permutation_seed() outside the tests returns self.<attr> bound only by unpacking "
+    "_parse_announcement(...) or self.<holder>.<field> whose attrs field is given, at every construction, an element of "
+    "_parse_announcement(...); both server classes use the same element; every _parse_announcement / from_announcement / "
+    "_make_storage_system call passes its caller's own un-rebound announcement and server id; (10) without an announced "
+    "seed the element is base32.a2b(server_id[3:]) only after a successful regex search/match/fullmatch on server_id, "
+    "else hashlib.sha256(server_id).digest(). "
     "Which field is compared, strictness (`expires > now` vs `>=`) and the per-call clock are C33's clauses, as are "
     "what the kept list holds (signature-checked certificates only) and that the checking predicate is not handed "
     "out when no keys are configured (that direction only refuses uploads). "
     "Undecided: SHA-1 itself, Python's tuple ordering / sort stability, the truth of what servers announce as "
-    "their permutation seed.")
+    "their permutation seed, the language of the v0- regex itself, base32.a2b, mutation of the announcement dict "
+    "between the test and the lookup, the seed of the _NullStorage placeholder (never connected).")
 TECHNIQUE = ("static analysis: normal-form agreement of the sort key, CFG must-precede gates for the upload filter, "
              "package-wide who-may-call sweep with a classification table, per-path derivation (taint) product "
-             "exploration of the verifier closure")
+             "exploration of the verifier closure, value-kind path exploration of the announcement parser")
 
 SC = "storage_client"
 BROKER = SC + ":StorageFarmBroker"
@@ -335,6 +353,324 @@ def _loop_bound_names(fn):
                 visit(c.body, inner)
     visit(fn.node.body, None)
     return out
+
+
+# ------------------------------------------- C32.8-C32.10: which seed a server is permuted by
+PARSE = SC + ":_parse_announcement"
+SEED_KEY = "permutation-seed-base32"
+
+
+def _node_of(fn, astnode):
+    """The CFG node of `fn` at which the expression `astnode` is evaluated."""
+    for n in fn.cfg().nodes:
+        for e in node_exprs(n) if n.kind != "stmt" else [n.ast]:
+            if e is not None and any(x is astnode for x in own_nodes(e, into_lambda=True)):
+                return n
+    raise AnalysisError("%s: cannot place %s in the CFG" % (fn.qual, fn.loc(astnode)))
+
+
+def _own_param(fn, e, fnorm, node):
+    """Is the argument `e` one of fn's own parameters, never re-bound in fn (or self.<a> bound in fn from such a
+    parameter only)?  Returns the parameter name or None."""
+    rebound = {t for n in fn.cfg().nodes for t in node_stores(n)}
+    e = fnorm.resolve(node, e)
+    if isinstance(e, ast.Name) and e.id in fn.params and e.id not in rebound:
+        return e.id
+    p = attr_path(e)
+    if p and p.startswith("self.") and p.count(".") == 1:
+        vals = [assign_value(n, p) for n in fn.cfg().nodes if n.kind == "stmt" and p in node_stores(n)]
+        if vals and all(isinstance(v, ast.Name) and v.id in fn.params and v.id not in rebound for v in vals) \
+                and len({v.id for v in vals}) == 1:
+            return vals[0].id
+    return None
+
+
+def _unpacked_position(fn, fnorm, node, e, callee_tail):
+    """`e` (evaluated at `node`) is element i of the tuple `callee_tail(...)` returned: (call, i), else None."""
+    v = fnorm.resolve(node, e)
+    if isinstance(v, ast.Subscript) and isinstance(v.value, ast.Name):
+        v = ast.Subscript(value=fnorm.resolve(node, v.value), slice=v.slice, ctx=ast.Load())
+    if isinstance(v, ast.Subscript) and isinstance(v.value, ast.Call) and call_tail(v.value) == callee_tail \
+            and isinstance(v.slice, ast.Constant) and isinstance(v.slice.value, int):
+        return v.value, v.slice.value
+    return None
+
+
+def _seed_route(idx, cg, r):
+    """Follow every non-test get_permutation_seed() back to the element of _parse_announcement's result it returns.
+    Returns the set of tuple positions; records the sites / violations of C32.9 on `r`."""
+    pa = idx.func(PARSE)
+    pps = first_positional_params(pa)
+    if "ann" not in pps or "server_id" not in pps:
+        raise AnchorVanished("_parse_announcement no longer takes (server_id, .., ann)")
+    positions = set()
+    used_calls = []
+
+    def not_test(f):
+        return not f.module.name.startswith("allmydata.test")
+
+    def check_args(f, call, callee, what):
+        """the announcement / server id handed on are the caller's own"""
+        cps = first_positional_params(callee)
+        if cps and cps[0] in ("self", "cls"):
+            cps = cps[1:]
+        node = _node_of(f, call)
+        fnorm = FlowNorm(f)
+        for pn in ("ann", "server_id"):
+            if pn not in cps:
+                raise AnchorVanished("%s has no parameter %s" % (short(callee), pn))
+            a = kwarg(call, pn) or arg(call, cps.index(pn))
+            own = _own_param(f, a, fnorm, node) if a is not None else None
+            r.require(own is not None, f, f.loc(call), "%s passes %s as %s of %s: the seed would be computed from something "
+                      "other than this server's own %s" % (short(f), src(f, a) if a is not None else "nothing", pn, what,
+                                                         "announcement" if pn == "ann" else "id"))
+
+    impls = [f for f in idx.by_name.get("get_permutation_seed", []) if f.cls is not None and not_test(f)
+             and not f.module.name.endswith(".interfaces")]
+    if len(impls) < 2:
+        raise AnchorVanished("expected two get_permutation_seed implementations, found %d" % len(impls))
+    for f in impls:
+        fnorm = FlowNorm(f)
+        rets = f.cfg().find(is_return)
+        if not rets:
+            raise AnchorVanished("%s returns nothing" % short(f))
+        for n in rets:
+            r.site(f, n.ast, "seed accessor")
+            path = attr_path(fnorm.resolve(n, n.ast.value)) if n.ast.value is not None else None
+            if not path or not path.startswith("self."):
+                r.violation(f, f.loc(n.ast), "%s returns %s, not the seed kept for this server" % (
+                    short(f), src(f, n.ast.value) if n.ast.value is not None else "None"))
+                continue
+            parts = path.split(".")[1:]
+            if len(parts) == 1:
+                # self.<a>: bound in the class by unpacking _parse_announcement(...)
+                a = parts[0]
+                stores_ = [(g, nd) for (g, nd) in cg.attr_stores(a) if g.cls is not None and f.cls in g.cls.mro()]
+                if not stores_:
+                    raise AnchorVanished("%s.%s is never bound" % (f.cls.name, a))
+                for (g, nd) in stores_:
+                    gn = _node_of(g, nd)
+                    pos = _tuple_store_position(gn, "self." + a, PARSE.split(":")[1])
+                    if pos is None:
+                        r.violation(g, g.loc(nd), "%s binds self.%s, which get_permutation_seed() returns, to something other "
+                                    "than the seed element of _parse_announcement(...)" % (short(g), a))
+                        continue
+                    positions.add(pos[1])
+                    used_calls.append((g, pos[0]))
+            elif len(parts) == 2:
+                # self.<holder>.<field>: the field of the storage description object(s) built from the announcement
+                holder, field = parts
+                owners = [c for c in f.module.classes.values() if field in c.attrs]
+                built = 0
+                for c in owners:
+                    vals = c.attrs[field]
+                    if not all(isinstance(v, ast.Call) and call_tail(v) in ("ib", "field") for v in vals):
+                        continue        # a class-level constant (the placeholder for servers we cannot talk to)
+                    cons = [(cs.fn, cs.call) for cs in cg.calls_named(c.name) if not_test(cs.fn)]
+                    for m in c.methods.values():
+                        if m.params and m.params[0] == "cls":
+                            cons += [(m, x) for x in calls_in_func(m) if isinstance(x.func, ast.Name) and x.func.id == "cls"]
+                    for (g, call) in cons:
+                        built += 1
+                        v = kwarg(call, field)
+                        gn = _node_of(g, call)
+                        pos = _unpacked_position(g, FlowNorm(g), gn, v, PARSE.split(":")[1]) if v is not None else None
+                        if pos is None:
+                            r.violation(g, g.loc(call), "%s builds %s with %s=%s, which is not the seed element of "
+                                        "_parse_announcement(...)" % (short(g), c.name, field, src(g, v) if v is not None else "<positional>"))
+                            continue
+                        positions.add(pos[1])
+                        used_calls.append((g, pos[0]))
+                if not built:
+                    raise AnchorVanished("no class of %s keeps a %s field built from the announcement" % (f.module.name, field))
+            else:
+                raise AnalysisError("%s returns %s: the rule follows self.<a> and self.<holder>.<field> only" % (short(f), path))
+    # every _parse_announcement call in the package is one of those, and is given the caller's own announcement / id
+    for cs in cg.calls_named(PARSE.split(":")[1]):
+        if not not_test(cs.fn):
+            continue
+        r.site(cs.fn, cs.call, "parses the announcement")
+        check_args(cs.fn, cs.call, pa, "_parse_announcement")
+    # one hop up: who builds the description objects / the system from an announcement
+    for tail in ("from_announcement", "_make_storage_system"):
+        for cs in cg.calls_named(tail):
+            if not not_test(cs.fn):
+                continue
+            cands = [g for g in cg.resolve(cs.fn, cs.call) if g.name == tail] or \
+                [g for g in idx.by_name.get(tail, []) if g.module is cs.fn.module]
+            if len(cands) != 1:
+                raise AnalysisError("cannot resolve %s called in %s" % (tail, cs.fn.qual))
+            r.site(cs.fn, cs.call, "hands the announcement on")
+            check_args(cs.fn, cs.call, cands[0], tail)
+    return positions
+
+
+def _tuple_store_position(node, target_path, callee_tail):
+    """The CFG node is `(.., <target_path>, ..) = callee_tail(...)`: (call, i), else None."""
+    a = node.ast
+    if not (isinstance(a, ast.Assign) and isinstance(a.value, ast.Call) and call_tail(a.value) == callee_tail):
+        return None
+    for t in a.targets:
+        if isinstance(t, (ast.Tuple, ast.List)) and not any(isinstance(e, ast.Starred) for e in t.elts):
+            hits = [i for i, e in enumerate(t.elts) if attr_path(e) == target_path]
+            if len(hits) == 1:
+                return a.value, hits[0]
+    return None
+
+
+def _seed_paths(idx, positions):
+    """Explore every path of _parse_announcement, following which kind of value each local holds:
+      raw   the announced text (ann[K], ann.get(K[, d]), copies, .encode() of it)
+      none  the constant None
+      good  base32.a2b(raw)
+      key   base32.a2b(server_id[3:])
+      hash  hashlib.sha256(server_id).digest()
+    and whether the path established that K is absent from the announcement / that a regex test of server_id
+    succeeded.  Returns [(return node, position, kind|None, absent, v0, witness, state count)]."""
+    fn = idx.func(PARSE)
+    cfg = fn.cfg()
+    fnorm = FlowNorm(fn)
+    ann, sid = "ann", "server_id"
+    for n in cfg.nodes:
+        if {ann, sid} & set(node_stores(n)):
+            raise AnalysisError("_parse_announcement re-binds %s: the rule cannot follow it" % sorted({ann, sid} & set(node_stores(n))))
+
+    def is_lookup(e):
+        if isinstance(e, ast.Subscript) and isinstance(e.value, ast.Name) and e.value.id == ann \
+                and isinstance(e.slice, ast.Constant) and e.slice.value == SEED_KEY:
+            return True
+        return isinstance(e, ast.Call) and isinstance(e.func, ast.Attribute) and e.func.attr == "get" \
+            and isinstance(e.func.value, ast.Name) and e.func.value.id == ann and e.args \
+            and isinstance(e.args[0], ast.Constant) and e.args[0].value == SEED_KEY
+
+    def kind_of(e, kinds):
+        if e is None:
+            return None
+        if isinstance(e, ast.Name):
+            return kinds.get(e.id)
+        if isinstance(e, ast.NamedExpr):
+            return kind_of(e.value, kinds)
+        if isinstance(e, ast.IfExp):
+            ks = {kind_of(e.body, kinds), kind_of(e.orelse, kinds)}
+            return ks.pop() if len(ks) == 1 else None
+        if isinstance(e, ast.Constant) and e.value is None:
+            return "none"
+        if is_lookup(e):
+            return "raw"
+        if isinstance(e, ast.Call) and isinstance(e.func, ast.Attribute) and e.func.attr == "encode" \
+                and kind_of(e.func.value, kinds) == "raw":
+            return "raw"
+        if isinstance(e, ast.Call) and call_tail(e) == "a2b" and len(e.args) == 1 and not e.keywords:
+            a = e.args[0]
+            if kind_of(a, kinds) == "raw":
+                return "good"
+            while isinstance(a, ast.Name) and a.id not in kinds and a.id in udefs:
+                a = udefs[a.id]
+            if isinstance(a, ast.Subscript) and isinstance(a.value, ast.Name) and a.value.id == sid \
+                    and isinstance(a.slice, ast.Slice) and isinstance(a.slice.lower, ast.Constant) and a.slice.lower.value == 3 \
+                    and a.slice.upper is None and a.slice.step is None:
+                return "key"
+            return None
+        if isinstance(e, ast.Call) and isinstance(e.func, ast.Attribute) and e.func.attr == "digest" and not e.args:
+            h = e.func.value
+            while isinstance(h, ast.Name) and h.id in udefs:
+                h = udefs[h.id]
+            if isinstance(h, ast.Call) and call_name(h) in ("hashlib.sha256", "sha256") and len(h.args) == 1 and not h.keywords \
+                    and isinstance(h.args[0], ast.Name) and h.args[0].id == sid:
+                return "hash"
+        return None
+
+    udefs = unique_defs(fn)
+    lookup_txt = (norm_src("%s.get(%r)" % (ann, SEED_KEY)), norm_src("%s.get(%r, None)" % (ann, SEED_KEY)))
+    RX = re.compile(r"^(?:[\w.]+\.)?(?:search|match|fullmatch)\(.*\b%s\)$" % re.escape(sid), re.S)
+
+    def edge(n, lab, kinds):
+        """(absent established, regex test of server_id succeeded) on this test edge"""
+        f = fnorm.edge_fact(n, lab)
+        if not f:
+            return False, False
+        op, a, b = f
+        looked_up = set(lookup_txt) | {nm for (nm, k) in kinds if k == "raw"}      # the lookup itself or a local holding it
+        absent = (op == "not in" and a == repr(SEED_KEY) and b == ann) or \
+            (op == "is" and {a, b} & looked_up and "None" in (a, b)) or \
+            (op == "false" and a in looked_up)
+        v0 = (op == "truth" and RX.match(a) is not None) or \
+            (op == "is not" and "None" in (a, b) and RX.match(a if b == "None" else b) is not None)
+        return bool(absent), bool(v0)
+
+    def transfer(n, lab, nxt, st):
+        kinds, absent, v0 = st
+        if n.kind in ("entry", "exit", "raise"):
+            return st
+        if lab == "exc":
+            if nxt.kind == "except" and nxt.ast is not None and nxt.ast.type is not None:
+                tn = {x.id for x in ast.walk(nxt.ast.type) if isinstance(x, ast.Name)}
+                if tn and tn <= {"KeyError", "LookupError"} and any(
+                        is_lookup(x) and isinstance(x, ast.Subscript) for e in node_exprs(n) + ([n.ast] if n.kind == "stmt" else [])
+                        for x in own_nodes(e)):
+                    absent = True
+            return (kinds, absent, v0)
+        binds = _node_bindings(n)
+        if binds:
+            km = dict(kinds)
+            for (names, v) in binds:
+                k = kind_of(v, km) if (v is not None and len(names) == 1 and n.kind not in ("iter",)) else None
+                for nm in names:
+                    if k is None:
+                        km.pop(nm, None)
+                    else:
+                        km[nm] = k
+            kinds = frozenset(km.items())
+        if n.kind == "test" and isinstance(lab, tuple):
+            f = fnorm.edge_fact(n, lab)
+            nones = {nm for (nm, k) in kinds if k == "none"}
+            if f and ((f[0] == "is not" and {f[1], f[2]} & nones and "None" in f[1:]) or (f[0] == "truth" and f[1] in nones)):
+                return None         # a local that holds None on this path does not pass `is not None`
+            a_, v_ = edge(n, lab, kinds)
+            absent, v0 = absent or a_, v0 or v_
+        return (kinds, absent, v0)
+
+    visited, parent = explore(cfg, (frozenset(), False, False), transfer)
+    out = []
+    rets = cfg.find(is_return)
+    if not rets:
+        raise AnchorVanished("_parse_announcement has no return")
+    for n in rets:
+        v = fnorm.resolve(n, n.ast.value) if n.ast.value is not None else None
+        if not isinstance(v, ast.Tuple):
+            raise AnalysisError("_parse_announcement returns %s, not a tuple literal the rule can index" % (
+                src(fn, v) if v is not None else "None"))
+        for pos in sorted(positions):
+            if pos >= len(v.elts):
+                raise AnalysisError("_parse_announcement's result has no element %d" % pos)
+            seen = set()
+            for (nid, st) in sorted(visited, key=lambda z: (z[0], z[1][1], z[1][2], sorted(z[1][0]))):
+                if nid != n.id:
+                    continue
+                k = kind_of(v.elts[pos], dict(st[0]))
+                sig = (k, st[1], st[2])
+                if sig in seen:
+                    continue
+                seen.add(sig)
+                out.append((n, pos, v.elts[pos], k, st[1], st[2], witness(cfg, parent, (nid, st))))
+    return fn, out, len(visited)
+
+
+def _last_value_on(fn, w, e):
+    """The expression the returned name `e` was last bound to along the witness path (copies followed)."""
+    name = e.id if isinstance(e, ast.Name) else None
+    if name is None:
+        return e
+    for (node, lab) in reversed(w.path):
+        if lab == "exc":
+            continue
+        for (names, v) in _node_bindings(node):
+            if name in names:
+                if isinstance(v, ast.Name):
+                    name = v.id
+                    break
+                return v if v is not None else node.ast
+    return e
 
 
 def run(ctx: Context):
@@ -964,3 +1300,73 @@ def run(ctx: Context):
                         "None, which upload_permitted() reads as `no verifier configured` (path: %s)" % w.brief(), w)
         if not n_chk:
             raise AnchorVanished("create_grid_manager_verifier never returns its checking predicate %s" % chk.name)
+
+    # -- 9. which element of the parsed announcement a server is permuted by ------------------
+    # (run before C32.8: it finds the tuple position(s) of _parse_announcement's result that get_permutation_seed()
+    # hands to the sort key of C32.1)
+    positions = set()
+    with ctx.rule("C32.9", "R4", "every get_permutation_seed() returns the seed element of _parse_announcement(server_id, "
+                  "furl, ann) for this server's own id and announcement (through self.<attr> or the field of the storage "
+                  "description built from it); every hop hands on its own announcement / server id", expected=7) as r:
+        positions = _seed_route(idx, cg, r)
+        if not positions and not r.violations:
+            raise AnchorVanished("no get_permutation_seed() is fed by _parse_announcement")
+        if len(positions) > 1:
+            r.violation(idx.func(PARSE), idx.func(PARSE).loc(), "the server classes take their permutation seed from different "
+                        "elements %s of _parse_announcement's result: Foolscap and HTTP servers would be ordered by different "
+                        "values" % sorted(positions))
+
+    # -- 8./10. the announced seed has precedence; the fallbacks are the frozen ones ----------
+    seed_rows = None
+    with ctx.rule("C32.8", "R3", "_parse_announcement: the permutation seed it returns is base32.a2b(ann['permutation-seed-base32']) "
+                  "on every path that did not establish that the announcement carries no such key; a key- / id-derived seed "
+                  "only where it is absent", expected=1) as r:
+        if not positions:
+            raise AnalysisError("the seed element of _parse_announcement could not be located (see C32.9)")
+        pfn, seed_rows, nstates = _seed_paths(idx, positions)
+        r.count(nstates)
+        n_good = 0
+        for (n, pos, e, k, absent, v0, w) in seed_rows:
+            if k == "good":
+                n_good += 1
+                continue
+            if absent:
+                continue        # judged by C32.10
+            val = _last_value_on(pfn, w, e)
+            r.violation(pfn, pfn.loc(val if isinstance(val, ast.AST) else n.ast),
+                        "_parse_announcement can return %s as the permutation seed on a path that never established that the "
+                        "announcement lacks %r: a seed the server announced is ignored and this client orders the server by a "
+                        "different hash than the clients that honour it (path: %s)" % (
+                            src(pfn, val) if isinstance(val, ast.AST) else "a value it cannot follow", SEED_KEY, w.brief()), w)
+        for n in {row[0].id: row[0] for row in seed_rows}.values():
+            r.site(pfn, n.ast, "returned seed, element %s" % sorted(positions))
+        if not n_good and not r.violations:
+            raise AnchorVanished("_parse_announcement never returns the decoded announced seed")
+
+    with ctx.rule("C32.10", "R6", "_parse_announcement, announcement without a seed: the seed is base32.a2b(server_id[3:]) "
+                  "only after a regex test of server_id succeeded, else hashlib.sha256(server_id).digest() (compat-frozen: "
+                  "every client must derive the same seed)", expected=2) as r:
+        if seed_rows is None:
+            raise AnalysisError("the paths of _parse_announcement could not be explored (see C32.8)")
+        pfn = idx.func(PARSE)
+        for (n, pos, e, k, absent, v0, w) in seed_rows:
+            if not absent or k == "good":
+                continue
+            val = _last_value_on(pfn, w, e)
+            vsrc = src(pfn, val) if isinstance(val, ast.AST) else "a value it cannot follow"
+            r.site(pfn, val if isinstance(val, ast.AST) else n.ast, "fallback seed %s" % (k or "?"))
+            if k == "hash":
+                continue
+            if k == "key":
+                r.require(v0, pfn, pfn.loc(val), "the server id's tail is decoded as the permutation seed (%s) on a path on which "
+                          "no regex test established that the id is a v0-<pubkey> one (path: %s)" % (vsrc, w.brief()), w)
+                continue
+            # another value: say so when it is built from the id by library calls only, else give up
+            calls = [c for c in ast.walk(val) if isinstance(c, ast.Call)] if isinstance(val, ast.AST) else []
+            pkg = [c for c in calls if isinstance(idx.resolve_expr(pfn.module, c.func), FuncInfo)
+                   and not idx.resolve_expr(pfn.module, c.func).module.name.endswith("util.base32")]
+            if pkg or not isinstance(val, ast.expr):
+                raise AnalysisError("_parse_announcement derives a fallback seed through %s: the rule cannot follow it" % vsrc)
+            r.violation(pfn, pfn.loc(val), "without an announced seed _parse_announcement returns %s, which is neither "
+                        "base32.a2b(server_id[3:]) nor hashlib.sha256(server_id).digest(): other clients derive a different "
+                        "seed for the same server and disagree about the order (path: %s)" % (vsrc, w.brief()), w)
